@@ -5,21 +5,9 @@
   any parameters, at any point of the lifecycle, including while a patch is mid-boot — reports
   failure and changes neither the configuration in use nor anything on disk.
 -/
-import UpdaterModel.Lemmas.Run
+import UpdaterModel.Lemmas.Core
 
 namespace Updater
-
-/-- A second `init` returns `false` and leaves the whole world (configuration, disk) untouched,
-    for EVERY world (reachable or not) and every parameter set. -/
-theorem init_configured (env : Env) (w : World) (p : InitParams) (c : Config)
-    (h : w.config = some c) : init env w p = (w, false) := by
-  unfold init
-  cases p.yaml with
-  | none => rfl
-  | some y =>
-    cases p.libapps with
-    | nil => rfl
-    | cons lib rest => simp [h]
 
 /-- In particular the patch that is mid-boot is not treated as failed: `currently_booting`, the ban
     set and the event queue are literally the same values. -/
